@@ -48,6 +48,16 @@ class BufGen(ProgGen):
             self.pending = [("enter", k) for k in ks[1:]]
             return ("enter", ks[0])
         k = rng.randrange(len(self.r.root_objs()))
+        ks = self.objs_on(self.obj_res[k])
+        if self.fam.buffered == "memory" and len(ks) > 1:
+            # Two objects on one file in DIFFERENT buffered states are unsupported by the library
+            # (and outside every claim, DESIGN section 5).  Under the shared-memory strategy the
+            # objects share nested collections, whose saves go through the object that created
+            # them - which the tree model does not track - so there the object contexts of one
+            # file are always entered and left together.
+            self.stack.append(("f", self.obj_res[k], ks))
+            self.pending = [("enter", j) for j in ks[1:]]
+            return ("enter", ks[0])
         self.stack.append(("o", k))
         return ("enter", k)
 
